@@ -6,6 +6,8 @@ mod adv;
 mod c01;
 mod c02;
 mod c03;
+mod c05;
+mod c08;
 mod c11;
 mod claims;
 mod common;
@@ -35,6 +37,9 @@ fn gen(prop: &str, tier: &str, seed: u64, out: &str) {
         "C02" => c02::gen_c02(&mut em, &mut rng),
         "C01" => c01::gen_c01(&mut em, &mut rng),
         "C11" => c11::gen_c11(&mut em, &mut rng),
+        "C08" => c08::gen_c08(&mut em, &mut rng),
+        "C05" => c05::gen_c05(&mut em, &mut rng),
+        "C09" => c05::gen_c09(&mut em, &mut rng),
         "C04" => c11::gen_c04(&mut em, &mut rng),
         _ => {
             eprintln!("unknown property {}", prop);
